@@ -397,8 +397,11 @@ snarf_shift(const char *spec)
 	int b = 0, d = 0;
 	char *on = NULL;
 	long int tmp;
+	bool neg0;
 
 more:
+	/* -0B is a direction too */
+	neg0 = *spec == '-';
 	tmp = strtol(spec, &on, 10);
 	if (UNLIKELY(on == NULL)) {
 		return 0;
@@ -428,7 +431,7 @@ more:
 		default:
 			return 0;
 		}
-		sem |= b < 0;
+		sem |= b < 0 || (!b && neg0);
 		sem |= !b << 1U;
 		b = b >= 0 ? b : -b;
 		break;
